@@ -10,7 +10,9 @@
 //! tree) and with the MintCount query.  Every minter step is printed for the Coq model.
 use crate::chain;
 use crate::util::*;
+use crate::oe_world::{OeCfg, OeOp, OeWorld, OE_VARIANTS};
 use crate::w_sale::*;
+use cw_multi_test::Executor;
 use crate::Args;
 use cosmwasm_std::Addr;
 use serde::{Deserialize, Serialize};
@@ -105,6 +107,23 @@ pub struct WlSpec {
     pub ibc: bool,
     pub stages: Vec<StageSpec>,
 }
+/// the minter family member a case runs on: 0..=5 the vending minters, 6..=8 the open-edition minters
+#[derive(Clone, Copy, Debug)]
+pub struct Fam {
+    pub name: &'static str,
+    pub flex: bool,
+    pub merkle: bool,
+    pub oe: bool,
+}
+pub fn fam(variant: usize) -> Fam {
+    if variant < 6 {
+        let v = VARIANTS[variant];
+        Fam { name: v.name, flex: v.flex, merkle: v.merkle, oe: false }
+    } else {
+        let v = OE_VARIANTS[variant - 6];
+        Fam { name: v.name, flex: v.flex, merkle: v.merkle, oe: true }
+    }
+}
 fn is_tiered(k: &str) -> bool {
     k.starts_with("tiered")
 }
@@ -127,9 +146,9 @@ impl WlSpec {
         let h = if is_tiered(&self.kind) { mtree::Hasher::Blake3x16 } else { mtree::Hasher::Sha256 };
         mtree::build(h, &self.stage_leaves(i))
     }
-    fn msg(&self, w: &SaleWorld) -> (Value, u128) {
+    fn msg(&self, t0: u64) -> (Value, u128) {
         let denom = if self.ibc { IBC } else { NATIVE };
-        let t = |secs: u64| json!(w.abs_time(secs, 0).to_string());
+        let t = |secs: u64| json!((t0 + secs * 1_000_000_000).to_string());
         let price = json!({"amount": self.price.to_string(), "denom": denom});
         let s0 = &self.stages[0];
         let addrs = |s: &StageSpec| s.members.iter().map(|m| json!(m.0)).collect::<Vec<_>>();
@@ -199,6 +218,8 @@ pub enum COp {
     WlRemove { stage: u32, who: String },
     /// the admin airdrops (MintTo) until nothing is mintable
     SellOut,
+    /// an open-edition-only op (UpdateEndTime ...); ignored on the vending minters
+    E(OeOp),
 }
 
 /// whitelist the minter is created with (built by the sale world's own helper)
@@ -222,6 +243,11 @@ pub struct Case {
     pub price: u128,
     pub start_in: u64,
     pub init_wl: Option<InitWl>,
+    /// open edition: end time (seconds after creation) and "no num_tokens"
+    #[serde(default)]
+    pub end_in: Option<u64>,
+    #[serde(default)]
+    pub unlimited: bool,
     pub ops: Vec<COp>,
 }
 
@@ -291,6 +317,8 @@ fn op_kind(op: &COp) -> &'static str {
         COp::WlAdd { .. } => "wl_add_member",
         COp::WlRemove { .. } => "wl_remove_member",
         COp::SellOut => "mint_to",
+        COp::E(OeOp::UpdateEndTime { .. }) => "update_end_time",
+        COp::E(_) => "other",
     }
 }
 
@@ -307,10 +335,12 @@ struct Pre {
     stage_id: Option<u64>,
     stage_cap: Option<Option<u64>>,
     member_count: Option<u64>,
-    mintable: u64,
+    /// None = the minter keeps no count of remaining tokens (open edition without num_tokens)
+    mintable: Option<u64>,
+    end_time: Option<u64>,
+    now: u64,
 }
-fn snapshot(w: &SaleWorld, who: &str) -> Pre {
-    let c = w.minter_config();
+fn snapshot(app: &chain::App, c: &Value, mintable: Option<u64>, who: &str) -> Pre {
     let wl = c["whitelist"].as_str().map(|s| s.to_string());
     let mut p = Pre {
         pal: c["per_address_limit"].as_u64().unwrap_or(0),
@@ -320,22 +350,150 @@ fn snapshot(w: &SaleWorld, who: &str) -> Pre {
         stage_id: None,
         stage_cap: None,
         member_count: None,
-        mintable: w.mintable(),
+        mintable,
+        end_time: c.get("end_time").and_then(|x| x.as_str()).and_then(|x| x.parse().ok()),
+        now: chain::now(app),
     };
     if let Some(a) = &wl {
-        if let Some(wc) = q(&w.app, a, json!({"config": {}})) {
+        if let Some(wc) = q(app, a, json!({"config": {}})) {
             p.active = wc["is_active"].as_bool().unwrap_or(false);
             p.wl_limit = wc.get("per_address_limit").and_then(|x| x.as_u64());
         }
-        p.stage_id = q(&w.app, a, json!({"active_stage_id": {}})).and_then(|v| v.as_u64());
+        p.stage_id = q(app, a, json!({"active_stage_id": {}})).and_then(|v| v.as_u64());
         if let Some(id) = p.stage_id {
             if id >= 1 {
-                p.stage_cap = q(&w.app, a, json!({"stage": {"stage_id": id - 1}})).map(|v| v["stage"]["mint_count_limit"].as_u64());
+                p.stage_cap = q(app, a, json!({"stage": {"stage_id": id - 1}})).map(|v| v["stage"]["mint_count_limit"].as_u64());
             }
         }
-        p.member_count = q(&w.app, a, json!({"member": {"member": who}})).and_then(|v| v["mint_count"].as_u64());
+        p.member_count = q(app, a, json!({"member": {"member": who}})).and_then(|v| v["mint_count"].as_u64());
     }
     p
+}
+
+/// The monitors: recount of the successful mints from the trace, compared with the limit /
+/// entitlement in force before each success and with MintCount.  Written from the property text;
+/// knows the whitelists only through their queries and the harness' own knowledge of the trees.
+struct Mon {
+    fam: Fam,
+    specs: BTreeMap<String, WlSpec>, // whitelist address -> what the harness put in it
+    kinds: BTreeMap<String, String>,
+    pub_since: BTreeMap<String, u64>, // public mints initiated (incl. admin MintTo/MintFor)
+    pub_own: BTreeMap<String, u64>,   // public Mint calls completed
+    wl_by: BTreeMap<(String, String, u64), u64>, // (whitelist, address, stage slot) -> mints
+    wl_sum: BTreeMap<String, u64>,
+    stage_by: BTreeMap<(String, u64), u64>,
+    purged: bool,
+    violations: Vec<(String, String)>,
+}
+impl Mon {
+    fn new(fam: Fam) -> Mon {
+        Mon {
+            fam,
+            specs: BTreeMap::new(),
+            kinds: BTreeMap::new(),
+            pub_since: BTreeMap::new(),
+            pub_own: BTreeMap::new(),
+            wl_by: BTreeMap::new(),
+            wl_sum: BTreeMap::new(),
+            stage_by: BTreeMap::new(),
+            purged: false,
+            violations: vec![],
+        }
+    }
+    fn mint_ok(&mut self, who: &str, p: &Pre, m_stage: Option<u32>, m_proof: bool, m_alloc: Option<u32>, desc: &str) {
+        let vname = self.fam.name;
+        if p.wl.is_some() && p.active {
+            // ---- a whitelist mint: entitlement in force, from the whitelist's own answers ----
+            let wl = p.wl.clone().unwrap();
+            let k = self.kinds.get(&wl).cloned().unwrap_or_default();
+            let slot = if is_tiered(&k) { p.stage_id.unwrap_or(99) } else { 0 };
+            let proven = is_merkle(&k)
+                && m_proof
+                && self.specs.get(&wl).map_or(false, |sp| {
+                    let i = if is_tiered(&k) { p.stage_id.unwrap_or(0).saturating_sub(1) as usize } else { 0 };
+                    i < sp.stages.len() && sp.stage_leaves(i).contains(&leaf(m_stage, who, m_alloc))
+                });
+            let ent: u64 = if is_flex(&k) {
+                p.member_count.unwrap_or(0)
+            } else if is_merkle(&k) {
+                if !proven {
+                    0
+                } else {
+                    m_alloc.map(|a| a as u64).unwrap_or(p.wl_limit.unwrap_or(0))
+                }
+            } else {
+                p.wl_limit.unwrap_or(0)
+            };
+            let n = self.wl_by.entry((wl.clone(), who.to_string(), slot)).or_insert(0);
+            *n += 1;
+            let n = *n;
+            *self.wl_sum.entry(who.to_string()).or_insert(0) += 1;
+            if n > ent {
+                let unproven = self.fam.merkle && m_alloc.is_some() && !proven;
+                let key = if unproven { "C03:merkle-unproven-allocation" } else { "C03:whitelist-entitlement-exceeded" };
+                self.violations.push((
+                    key.into(),
+                    format!("{} + {} whitelist: {} completed whitelist mint #{} (stage slot {}) with entitlement {} in force ({})", vname, k, who, n, slot, ent, desc),
+                ));
+            }
+            if is_tiered(&k) {
+                let t = self.stage_by.entry((wl.clone(), slot)).or_insert(0);
+                *t += 1;
+                if let Some(Some(cap)) = p.stage_cap {
+                    if *t > cap {
+                        self.violations.push((
+                            "C03:stage-limit-exceeded".into(),
+                            format!("{} + {} whitelist: mint #{} in stage {} whose mint_count_limit is {}", vname, k, t, slot, cap),
+                        ));
+                    }
+                }
+            }
+        } else {
+            // ---- a public mint ----
+            let n = self.pub_own.entry(who.to_string()).or_insert(0);
+            *n += 1;
+            let n = *n;
+            *self.pub_since.entry(who.to_string()).or_insert(0) += 1;
+            if n > p.pal {
+                self.violations.push((
+                    "C03:public-limit-exceeded".into(),
+                    format!("{}: {} completed public mint #{} with per-address limit {} in force", vname, who, n, p.pal),
+                ));
+            }
+        }
+    }
+    fn airdrop_ok(&mut self, who: &str) {
+        *self.pub_since.entry(who.to_string()).or_insert(0) += 1;
+    }
+    /// a purge may clear the counts only once nothing can be minted any more: sold out, or past the end time
+    fn purge_ok(&mut self, p: &Pre) {
+        let sold_out = p.mintable == Some(0);
+        let ended = p.end_time.map_or(false, |e| p.now > e);
+        if !sold_out && !ended {
+            self.violations.push((
+                "C03:purge-before-sell-out".into(),
+                format!("{}: Purge succeeded with {:?} tokens still mintable and the sale not ended", self.fam.name, p.mintable),
+            ));
+        }
+        self.purged = true;
+    }
+    /// reported counts = mints initiated (until a purge after the sale clears them)
+    fn counts(&mut self, reported: &[(String, (u64, u64))], desc: &str) {
+        if self.purged {
+            return;
+        }
+        for (a, (cnt, wlc)) in reported {
+            let p = *self.pub_since.get(a).unwrap_or(&0);
+            let wsum = *self.wl_sum.get(a).unwrap_or(&0);
+            let want = if self.fam.flex { (p, wsum) } else { (p + wsum, 0) };
+            if (*cnt, *wlc) != want {
+                self.violations.push((
+                    "C03:mint-count-mismatch".into(),
+                    format!("{}: after {}: MintCount({}) = ({}, {}) but the trace has {} public and {} whitelist mints initiated", self.fam.name, desc, a, cnt, wlc, p, wsum),
+                ));
+            }
+        }
+    }
 }
 
 /// money moved by something that is not a minter step (whitelist creation fees): the model only follows
@@ -376,40 +534,111 @@ fn attach_step(w: &mut SaleWorld, who: &str, a: &Addr) -> StepOut {
     StepOut { coq: Some(coq), ok, err, minted: None, is_minter_step: true }
 }
 
+/// the same for the open-edition world (record layout of OeWorld::run)
+fn attach_step_oe(w: &mut OeWorld, who: &str, a: &Addr) -> StepOut {
+    let now = chain::now(&w.app);
+    w.proof_ctx = None;
+    let new_view = w.wl_view(a, who);
+    let fp = w.fp_coq();
+    let wv = w.cur_wl_view(who);
+    let before_digest = chain::storage_digest(&w.app, &w.minter);
+    let sender_id = w.addrs.id(who);
+    let minter_id = w.addrs.id(w.minter.clone().as_str());
+    let env = format!("(mkEnv {} {} [] {})", now, sender_id, minter_id);
+    let m = w.minter.clone();
+    let res = chain::exec(&mut w.app, who, &m, &json!({"set_whitelist": {"whitelist": a.to_string()}}), &[]);
+    let ok = res.is_ok();
+    let coq_op = format!("(ESetWhitelist true {} {})", w.addrs.id(a.as_str()), new_view.unwrap_or("None".into()));
+    let wv_after = w.cur_wl_view(who);
+    let obs = w.observe();
+    let obs_coq = coq_list(&obs.iter().map(|x| x.to_string()).collect::<Vec<_>>());
+    let bal = w.balances_coq();
+    let coq = format!("(mkOStep {} {} {} {} {} None {} {} {})", env, fp, wv, coq_op, coq_bool(ok), wv_after, obs_coq, bal);
+    let mut err = res.err();
+    if !ok && chain::storage_digest(&w.app, &w.minter) != before_digest {
+        err = Some(format!("STATE-CHANGED-ON-FAILURE: {}", err.unwrap_or_default()));
+    }
+    StepOut { coq: Some(coq), ok, err, minted: None, is_minter_step: true }
+}
+
+fn wl_admin_msg(cop: &COp, k: &str) -> Value {
+    match cop {
+        COp::WlLimit { stage, limit } => {
+            if is_tiered(k) {
+                json!({"update_stage_config": {"stage_id": stage, "name": null, "start_time": null, "end_time": null,
+                    "mint_price": null, "per_address_limit": limit, "mint_count_limit": null}})
+            } else {
+                json!({"update_per_address_limit": limit})
+            }
+        }
+        COp::WlCap { stage, cap } => json!({"update_stage_config": {"stage_id": stage, "name": null, "start_time": null,
+            "end_time": null, "mint_price": null, "per_address_limit": null, "mint_count_limit": Some(cap)}}),
+        COp::WlAdd { stage, who, count } => {
+            let m = if is_flex(k) { json!([{"address": who, "mint_count": count}]) } else { json!([who]) };
+            if is_tiered(k) {
+                json!({"add_members": {"to_add": m, "stage_id": stage}})
+            } else {
+                json!({"add_members": {"to_add": m}})
+            }
+        }
+        COp::WlRemove { stage, who } => {
+            if is_tiered(k) {
+                json!({"remove_members": {"to_remove": [who], "stage_id": stage}})
+            } else {
+                json!({"remove_members": {"to_remove": [who]}})
+            }
+        }
+        _ => json!({}),
+    }
+}
+fn wl_code_key(kind: &str) -> &'static str {
+    match kind {
+        "plain" => "plain",
+        "tiered" => "tiered",
+        "flex" => "flex",
+        "tiered-flex" => "tiered-flex",
+        "merkle" => "merkle",
+        _ => "tiered-merkle",
+    }
+}
+fn dbg_err(vname: &str, kind_now: &str, cop: &COp, e: &str) {
+    if std::env::var("C03_DEBUG").is_ok() {
+        eprintln!("ERR {} [{}] {}: {}", vname, kind_now, op_kind(cop), e.lines().last().unwrap_or("").chars().take(220).collect::<String>());
+    }
+}
+
 pub fn run_case(c: &Case) -> CaseResult {
+    if c.variant >= 6 {
+        run_case_oe(c)
+    } else {
+        run_case_vending(c)
+    }
+}
+
+fn run_case_vending(c: &Case) -> CaseResult {
     let mut res = CaseResult { coq: None, steps: 0, ok_steps: 0, ok_mints: 0, violations: vec![], hist: BTreeMap::new() };
-    let vname = VARIANTS[c.variant].name;
+    let f = fam(c.variant);
+    let vname = f.name;
+    let init_kind = c.init_wl.as_ref().map(|i| i.kind.clone()).unwrap_or("none".into());
     let mut w = match SaleWorld::new(cfg_of(c)) {
         Ok(w) => w,
         Err(e) => {
             if std::env::var("C03_DEBUG").is_ok() {
-                eprintln!("create failed: {} {:?}: {}", vname, c.init_wl.as_ref().map(|i| i.kind.clone()), e);
+                eprintln!("create failed: {} {}: {}", vname, init_kind, e);
             }
-            let k = c.init_wl.as_ref().map(|i| i.kind.clone()).unwrap_or("none".into());
-            *res.hist.entry(format!("{}:create[{}]:err", vname, k)).or_insert(0) += 1;
+            *res.hist.entry(format!("{}:create[{}]:err", vname, init_kind)).or_insert(0) += 1;
             return res;
         }
     };
-    {
-        let k = c.init_wl.as_ref().map(|i| i.kind.clone()).unwrap_or("none".into());
-        *res.hist.entry(format!("{}:create[{}]:ok", vname, k)).or_insert(0) += 1;
-    }
+    *res.hist.entry(format!("{}:create[{}]:ok", vname, init_kind)).or_insert(0) += 1;
     let init = w.init_state_coq();
     let init_bal = w.balances_coq();
     let mut steps: Vec<String> = vec![];
-    // ---- monitor state: only what the property text talks about ----
-    let mut specs: BTreeMap<String, WlSpec> = BTreeMap::new(); // whitelist address -> what the harness put in it
-    let mut kinds: BTreeMap<String, String> = BTreeMap::new();
+    let mut mon = Mon::new(f);
     if let (Some(a), Some(i)) = (w.whitelist.clone(), &c.init_wl) {
-        kinds.insert(a.to_string(), i.kind.clone());
+        mon.kinds.insert(a.to_string(), i.kind.clone());
     }
     let mut spare: Option<Addr> = None;
-    let mut pub_since: BTreeMap<String, u64> = BTreeMap::new(); // public mints initiated (incl. admin MintTo/MintFor)
-    let mut pub_own: BTreeMap<String, u64> = BTreeMap::new(); // public Mint calls completed
-    let mut wl_by: BTreeMap<(String, String, u64), u64> = BTreeMap::new(); // (whitelist, address, stage slot) -> mints
-    let mut wl_sum: BTreeMap<String, u64> = BTreeMap::new();
-    let mut stage_by: BTreeMap<(String, u64), u64> = BTreeMap::new();
-    let mut purged = false;
     let accounts = w.count_accounts();
     let mut pending: Vec<COp> = c.ops.iter().rev().cloned().collect();
     let mut sellout_budget = c.num_tokens + 2;
@@ -423,57 +652,26 @@ pub fn run_case(c: &Case) -> CaseResult {
             }
             continue;
         }
-        let kind_now: String = w.minter_config()["whitelist"].as_str().and_then(|a| kinds.get(a).cloned()).unwrap_or("none".into());
+        let kind_now: String = w.minter_config()["whitelist"].as_str().and_then(|a| mon.kinds.get(a).cloned()).unwrap_or("none".into());
         let hkey = |ok: bool| format!("{}[{}]:{}:{}", vname, kind_now, op_kind(cop), if ok { "ok" } else { "err" });
         let out = match cop {
             COp::MakeWl(sp) => {
-                let (msg, fee) = sp.msg(&w);
-                let code = match sp.kind.as_str() {
-                    "plain" | "tiered" | "flex" | "tiered-flex" | "merkle" => sp.kind.as_str(),
-                    _ => "tiered-merkle",
-                };
+                let (msg, fee) = sp.msg(w.t0);
                 let before = w.balances_raw();
-                let r = w.make_whitelist_raw(code, &msg, fee);
+                let r = w.make_whitelist_raw(wl_code_key(&sp.kind), &msg, fee);
                 record_drift(&mut w, &before);
                 *res.hist.entry(hkey(r.is_ok())).or_insert(0) += 1;
                 if let Ok(a) = r {
-                    specs.insert(a.to_string(), sp.clone());
-                    kinds.insert(a.to_string(), sp.kind.clone());
+                    mon.specs.insert(a.to_string(), sp.clone());
+                    mon.kinds.insert(a.to_string(), sp.kind.clone());
                     spare = Some(a);
                 }
                 continue;
             }
             COp::WlLimit { .. } | COp::WlCap { .. } | COp::WlAdd { .. } | COp::WlRemove { .. } => {
                 let Some(a) = w.minter_config()["whitelist"].as_str().map(|s| s.to_string()) else { continue };
-                let k = kinds.get(&a).cloned().unwrap_or_default();
-                let msg = match cop {
-                    COp::WlLimit { stage, limit } => {
-                        if is_tiered(&k) {
-                            json!({"update_stage_config": {"stage_id": stage, "name": null, "start_time": null, "end_time": null,
-                                "mint_price": null, "per_address_limit": limit, "mint_count_limit": null}})
-                        } else {
-                            json!({"update_per_address_limit": limit})
-                        }
-                    }
-                    COp::WlCap { stage, cap } => json!({"update_stage_config": {"stage_id": stage, "name": null, "start_time": null,
-                        "end_time": null, "mint_price": null, "per_address_limit": null, "mint_count_limit": Some(cap)}}),
-                    COp::WlAdd { stage, who, count } => {
-                        let m = if is_flex(&k) { json!([{"address": who, "mint_count": count}]) } else { json!([who]) };
-                        if is_tiered(&k) {
-                            json!({"add_members": {"to_add": m, "stage_id": stage}})
-                        } else {
-                            json!({"add_members": {"to_add": m}})
-                        }
-                    }
-                    COp::WlRemove { stage, who } => {
-                        if is_tiered(&k) {
-                            json!({"remove_members": {"to_remove": [who], "stage_id": stage}})
-                        } else {
-                            json!({"remove_members": {"to_remove": [who]}})
-                        }
-                    }
-                    _ => unreachable!(),
-                };
+                let k = mon.kinds.get(&a).cloned().unwrap_or_default();
+                let msg = wl_admin_msg(cop, &k);
                 let before = w.balances_raw();
                 let r = chain::exec(&mut w.app, CREATOR, &Addr::unchecked(a), &msg, &[]);
                 record_drift(&mut w, &before);
@@ -485,95 +683,27 @@ pub fn run_case(c: &Case) -> CaseResult {
                 attach_step(&mut w, who, &a)
             }
             COp::SellOut => unreachable!(),
+            COp::E(_) => continue,
             COp::S(op) => {
                 let pre = match op {
                     Op::Mint { who, .. } | Op::MintM { who, .. } | Op::MintTo { who, .. } | Op::MintFor { who, .. } | Op::Purge { who } => {
-                        Some((who.clone(), snapshot(&w, who)))
+                        Some((who.clone(), snapshot(&w.app, &w.minter_config(), Some(w.mintable()), who)))
                     }
                     _ => None,
                 };
                 let out = w.run(op);
                 if out.ok {
                     match (op, &pre) {
-                        (Op::Mint { .. } | Op::MintM { .. }, Some((who, p))) => {
+                        (Op::Mint { .. }, Some((who, p))) => {
                             res.ok_mints += 1;
-                            if p.wl.is_some() && p.active {
-                                // ---- a whitelist mint: entitlement in force, from the whitelist's own answers ----
-                                let wl = p.wl.clone().unwrap();
-                                let k = kinds.get(&wl).cloned().unwrap_or_default();
-                                let slot = if is_tiered(&k) { p.stage_id.unwrap_or(99) } else { 0 };
-                                let (m_stage, m_proof, m_alloc) = match op {
-                                    Op::MintM { stage, proof, allocation, .. } => (*stage, proof.is_some(), *allocation),
-                                    _ => (None, false, None),
-                                };
-                                let proven = is_merkle(&k)
-                                    && m_proof
-                                    && specs.get(&wl).map_or(false, |sp| {
-                                        let i = if is_tiered(&k) { p.stage_id.unwrap_or(0).saturating_sub(1) as usize } else { 0 };
-                                        i < sp.stages.len() && sp.stage_leaves(i).contains(&leaf(m_stage, who, m_alloc))
-                                    });
-                                let ent: u64 = if is_flex(&k) {
-                                    p.member_count.unwrap_or(0)
-                                } else if is_merkle(&k) {
-                                    if !proven {
-                                        0
-                                    } else {
-                                        m_alloc.map(|a| a as u64).unwrap_or(p.wl_limit.unwrap_or(0))
-                                    }
-                                } else {
-                                    p.wl_limit.unwrap_or(0)
-                                };
-                                let n = wl_by.entry((wl.clone(), who.clone(), slot)).or_insert(0);
-                                *n += 1;
-                                *wl_sum.entry(who.clone()).or_insert(0) += 1;
-                                if *n > ent {
-                                    let unproven = w.v.merkle && m_alloc.is_some() && !proven;
-                                    let key = if unproven { "C03:merkle-unproven-allocation" } else { "C03:whitelist-entitlement-exceeded" };
-                                    res.violations.push((
-                                        key.into(),
-                                        format!(
-                                            "{} + {} whitelist: {} completed whitelist mint #{} (stage slot {}) with entitlement {} in force ({:?})",
-                                            vname, k, who, n, slot, ent, op
-                                        ),
-                                    ));
-                                }
-                                if is_tiered(&k) {
-                                    let t = stage_by.entry((wl.clone(), slot)).or_insert(0);
-                                    *t += 1;
-                                    if let Some(Some(cap)) = p.stage_cap {
-                                        if *t > cap {
-                                            res.violations.push((
-                                                "C03:stage-limit-exceeded".into(),
-                                                format!("{} + {} whitelist: mint #{} in stage {} whose mint_count_limit is {}", vname, k, t, slot, cap),
-                                            ));
-                                        }
-                                    }
-                                }
-                            } else {
-                                // ---- a public mint ----
-                                let n = pub_own.entry(who.clone()).or_insert(0);
-                                *n += 1;
-                                *pub_since.entry(who.clone()).or_insert(0) += 1;
-                                if *n > p.pal {
-                                    res.violations.push((
-                                        "C03:public-limit-exceeded".into(),
-                                        format!("{}: {} completed public mint #{} with per-address limit {} in force", vname, who, n, p.pal),
-                                    ));
-                                }
-                            }
+                            mon.mint_ok(who, p, None, false, None, &format!("{:?}", op));
                         }
-                        (Op::MintTo { .. } | Op::MintFor { .. }, Some((who, _))) => {
-                            *pub_since.entry(who.clone()).or_insert(0) += 1;
+                        (Op::MintM { stage, proof, allocation, .. }, Some((who, p))) => {
+                            res.ok_mints += 1;
+                            mon.mint_ok(who, p, *stage, proof.is_some(), *allocation, &format!("{:?}", op));
                         }
-                        (Op::Purge { .. }, Some((_, p))) => {
-                            if p.mintable != 0 {
-                                res.violations.push((
-                                    "C03:purge-before-sell-out".into(),
-                                    format!("{}: Purge succeeded with {} tokens still mintable", vname, p.mintable),
-                                ));
-                            }
-                            purged = true;
-                        }
+                        (Op::MintTo { .. } | Op::MintFor { .. }, Some((who, _))) => mon.airdrop_ok(who),
+                        (Op::Purge { .. }, Some((_, p))) => mon.purge_ok(p),
                         _ => {}
                     }
                 }
@@ -592,36 +722,175 @@ pub fn run_case(c: &Case) -> CaseResult {
             steps.push(s);
         }
         if let Some(e) = &out.err {
-            if std::env::var("C03_DEBUG").is_ok() {
-                eprintln!("ERR {} [{}] {}: {}", vname, kind_now, op_kind(cop), e.lines().last().unwrap_or("").chars().take(220).collect::<String>());
-            }
+            dbg_err(vname, &kind_now, cop, e);
             if e.starts_with("STATE-CHANGED-ON-FAILURE") {
-                res.violations.push(("C03:failed-call-changed-state".into(), format!("{}: {:?}: {}", vname, cop, e)));
+                mon.violations.push(("C03:failed-call-changed-state".into(), format!("{}: {:?}: {}", vname, cop, e)));
             }
         }
-        // reported counts = mints initiated (until a purge after sell-out clears them)
-        if !purged {
-            for a in &accounts {
-                let (cnt, wlc) = w.mint_count(a);
-                let p = *pub_since.get(a).unwrap_or(&0);
-                let wsum = *wl_sum.get(a).unwrap_or(&0);
-                let want = if w.v.flex { (p, wsum) } else { (p + wsum, 0) };
-                if (cnt, wlc) != want {
-                    res.violations.push((
-                        "C03:mint-count-mismatch".into(),
-                        format!(
-                            "{}: after {:?}: MintCount({}) = ({}, {}) but the trace has {} public and {} whitelist mints initiated",
-                            vname, cop, a, cnt, wlc, p, wsum
-                        ),
-                    ));
-                }
-            }
-        }
-        if res.violations.len() > 5 {
+        let reported: Vec<(String, (u64, u64))> = accounts.iter().map(|a| (a.clone(), w.mint_count(a))).collect();
+        mon.counts(&reported, &format!("{:?}", cop));
+        if mon.violations.len() > 5 {
             break;
         }
     }
+    res.violations = mon.violations;
     res.coq = Some(case_coq(&mut w, &init, &init_bal, &steps));
+    res
+}
+
+const OE_AIRDROP: u128 = 40;
+
+fn run_case_oe(c: &Case) -> CaseResult {
+    let mut res = CaseResult { coq: None, steps: 0, ok_steps: 0, ok_mints: 0, violations: vec![], hist: BTreeMap::new() };
+    let f = fam(c.variant);
+    let vname = f.name;
+    let mut cfg = OeCfg::basic(c.variant - 6);
+    cfg.fp.max_token_limit = 100;
+    cfg.fp.airdrop_price = OE_AIRDROP;
+    cfg.num_tokens = if c.unlimited { None } else { Some(c.num_tokens) };
+    cfg.end_in_secs = c.end_in;
+    cfg.pal = c.pal;
+    cfg.price = c.price;
+    cfg.start_in_secs = c.start_in;
+    let mut w = match OeWorld::new(cfg) {
+        Ok(w) => w,
+        Err(e) => {
+            if std::env::var("C03_DEBUG").is_ok() {
+                eprintln!("create failed: {}: {}", vname, e);
+            }
+            *res.hist.entry(format!("{}:create[none]:err", vname)).or_insert(0) += 1;
+            return res;
+        }
+    };
+    *res.hist.entry(format!("{}:create[none]:ok", vname)).or_insert(0) += 1;
+    let mut mon = Mon::new(f);
+    // the open-edition world has no drift bookkeeping: every whitelist of the case is created (and paid
+    // for) right now, before the initial balance snapshot; stage times are absolute anyway
+    let mut made: Vec<Option<Addr>> = vec![];
+    for cop in &c.ops {
+        if let COp::MakeWl(sp) = cop {
+            let (msg, fee) = sp.msg(w.t0);
+            let code_id = w.wl_code[wl_code_key(&sp.kind)];
+            let r = crate::util::catch(|| {
+                w.app.instantiate_contract(code_id, Addr::unchecked(CREATOR), &msg, &[cosmwasm_std::coin(fee, NATIVE)], "wl", None)
+            });
+            let a = match r {
+                Ok(Ok(a)) => Some(a),
+                _ => None,
+            };
+            *res.hist.entry(format!("{}[none]:make_whitelist:{}", vname, if a.is_some() { "ok" } else { "err" })).or_insert(0) += 1;
+            if let Some(a) = &a {
+                w.addrs.id(a.as_str());
+                mon.specs.insert(a.to_string(), sp.clone());
+                mon.kinds.insert(a.to_string(), sp.kind.clone());
+            }
+            made.push(a);
+        }
+    }
+    let init = w.init_state_coq();
+    let init_bal = w.balances_coq();
+    let mut steps: Vec<String> = vec![];
+    let mut spare: Option<Addr> = None;
+    let mut made_i = 0usize;
+    let accounts = w.count_accounts();
+    let mut pending: Vec<COp> = c.ops.iter().rev().cloned().collect();
+    let mut sellout_budget = c.num_tokens + 2;
+    while let Some(cop_owned) = pending.pop() {
+        let cop = &cop_owned;
+        if let COp::SellOut = cop {
+            if w.mintable().map_or(false, |m| m > 0) && sellout_budget > 0 {
+                sellout_budget -= 1;
+                pending.push(COp::SellOut);
+                pending.push(COp::S(Op::MintTo { who: CREATOR.into(), recipient: BUYERS[1].into(), funds: native(OE_AIRDROP) }));
+            }
+            continue;
+        }
+        let kind_now: String = w.minter_config()["whitelist"].as_str().and_then(|a| mon.kinds.get(a).cloned()).unwrap_or("none".into());
+        let hkey = |ok: bool| format!("{}[{}]:{}:{}", vname, kind_now, op_kind(cop), if ok { "ok" } else { "err" });
+        let oe_op: Option<OeOp> = match cop {
+            COp::MakeWl(_) => {
+                spare = made.get(made_i).cloned().flatten();
+                made_i += 1;
+                continue;
+            }
+            COp::WlLimit { .. } | COp::WlCap { .. } | COp::WlAdd { .. } | COp::WlRemove { .. } => {
+                let Some(a) = w.minter_config()["whitelist"].as_str().map(|s| s.to_string()) else { continue };
+                let k = mon.kinds.get(&a).cloned().unwrap_or_default();
+                let msg = wl_admin_msg(cop, &k);
+                let r = chain::exec(&mut w.app, CREATOR, &Addr::unchecked(a), &msg, &[]);
+                *res.hist.entry(hkey(r.is_ok())).or_insert(0) += 1;
+                continue;
+            }
+            COp::Attach { .. } => None,
+            COp::SellOut => unreachable!(),
+            COp::E(op) => Some(op.clone()),
+            COp::S(op) => match op {
+                Op::At { secs, nanos } => Some(OeOp::At { secs: *secs, nanos: *nanos }),
+                Op::Mint { who, funds } => Some(OeOp::MintM { who: who.clone(), funds: funds.clone(), stage: None, proof: None, allocation: None }),
+                Op::MintM { who, funds, stage, proof, allocation } => {
+                    Some(OeOp::MintM { who: who.clone(), funds: funds.clone(), stage: *stage, proof: proof.clone(), allocation: *allocation })
+                }
+                Op::MintTo { who, recipient, funds } => Some(OeOp::MintTo { who: who.clone(), recipient: recipient.clone(), funds: funds.clone() }),
+                Op::Purge { who } => Some(OeOp::Purge { who: who.clone() }),
+                Op::BurnRemaining { who } => Some(OeOp::BurnRemaining { who: who.clone() }),
+                Op::UpdatePerAddressLimit { who, limit } => Some(OeOp::UpdatePerAddressLimit { who: who.clone(), limit: *limit }),
+                _ => continue,
+            },
+        };
+        let out = match (&oe_op, cop) {
+            (None, COp::Attach { who }) => {
+                let Some(a) = spare.clone() else { continue };
+                attach_step_oe(&mut w, who, &a)
+            }
+            (Some(op), _) => {
+                let pre = match op {
+                    OeOp::MintM { who, .. } | OeOp::MintTo { who, .. } | OeOp::Purge { who } => {
+                        Some((who.clone(), snapshot(&w.app, &w.minter_config(), w.mintable(), who)))
+                    }
+                    _ => None,
+                };
+                let out = w.run(op);
+                if out.ok {
+                    match (op, &pre) {
+                        (OeOp::MintM { stage, proof, allocation, .. }, Some((who, p))) => {
+                            res.ok_mints += 1;
+                            let (st, pr, al) = if f.merkle { (*stage, proof.is_some(), *allocation) } else { (None, false, None) };
+                            mon.mint_ok(who, p, st, pr, al, &format!("{:?}", op));
+                        }
+                        (OeOp::MintTo { .. }, Some((who, _))) => mon.airdrop_ok(who),
+                        (OeOp::Purge { .. }, Some((_, p))) => mon.purge_ok(p),
+                        _ => {}
+                    }
+                }
+                out
+            }
+            _ => continue,
+        };
+        if !out.is_minter_step {
+            continue;
+        }
+        res.steps += 1;
+        if out.ok {
+            res.ok_steps += 1;
+        }
+        *res.hist.entry(hkey(out.ok)).or_insert(0) += 1;
+        if let Some(s) = out.coq {
+            steps.push(s);
+        }
+        if let Some(e) = &out.err {
+            dbg_err(vname, &kind_now, cop, e);
+            if e.starts_with("STATE-CHANGED-ON-FAILURE") {
+                mon.violations.push(("C03:failed-call-changed-state".into(), format!("{}: {:?}: {}", vname, cop, e)));
+            }
+        }
+        let reported: Vec<(String, (u64, u64))> = accounts.iter().map(|a| (a.clone(), w.mint_count(a))).collect();
+        mon.counts(&reported, &format!("{:?}", cop));
+        if mon.violations.len() > 5 {
+            break;
+        }
+    }
+    res.violations = mon.violations;
+    res.coq = Some(w.case_coq(&init, &init_bal, &steps));
     res
 }
 
@@ -643,9 +912,12 @@ fn junk_proof(tiered: bool) -> Vec<String> {
 }
 
 pub const KINDS: [&str; 6] = ["plain", "tiered", "flex", "tiered-flex", "merkle", "tiered-merkle"];
-fn compatible(v: &Variant, kind: &str) -> bool {
+fn compatible(v: &Fam, kind: &str) -> bool {
     if v.flex {
         is_flex(kind)
+    } else if v.merkle && v.oe {
+        // a proof is mandatory on the open-edition Merkle minter
+        is_merkle(kind)
     } else if v.merkle {
         !is_flex(kind)
     } else {
@@ -654,7 +926,7 @@ fn compatible(v: &Variant, kind: &str) -> bool {
 }
 
 /// one mint by `who` against `sp` (the attached whitelist) with honest arguments for stage index `i`
-fn honest_mint(v: &Variant, sp: &WlSpec, i: usize, who: &str, amt: u128) -> COp {
+fn honest_mint(v: &Fam, sp: &WlSpec, i: usize, who: &str, amt: u128) -> COp {
     if !v.merkle {
         return mint(who, amt);
     }
@@ -762,6 +1034,8 @@ pub struct Plan {
     pub noise: bool,
     pub second_wl: bool,
     pub sell_out: bool,
+    pub end_in: Option<u64>,
+    pub unlimited: bool,
 }
 
 const WL_PRICE: u128 = 60;
@@ -803,7 +1077,7 @@ fn expected_ent(p: &Plan, sp: &WlSpec, i: usize, b: usize) -> u32 {
     }
 }
 
-fn burst(rng: &mut Rng, p: &Plan, v: &Variant, sp: &WlSpec, i: usize, ops: &mut Vec<COp>, full: bool) {
+fn burst(rng: &mut Rng, p: &Plan, v: &Fam, sp: &WlSpec, i: usize, ops: &mut Vec<COp>, full: bool) {
     // buyer order rotates; the first buyer always tries entitlement + 1 (the boundary), the others fewer unless `full`
     let order: Vec<usize> = {
         let r = rng.below(3) as usize;
@@ -837,13 +1111,13 @@ fn burst(rng: &mut Rng, p: &Plan, v: &Variant, sp: &WlSpec, i: usize, ops: &mut 
 }
 
 fn history(rng: &mut Rng, p: &Plan, tag: &str) -> Case {
-    let v = VARIANTS[p.variant];
+    let v = fam(p.variant);
     let mut ops: Vec<COp> = vec![];
     let mut init_wl = None;
     let mut cur: Option<WlSpec> = None;
     if p.kind != "none" {
         let sp = plan_spec(p, 1000);
-        if p.use_init && !is_merkle(p.kind) {
+        if p.use_init && !is_merkle(p.kind) && !v.oe {
             // the sale world's helper: one limit / cap / member list for all stages
             let n = if is_tiered(p.kind) { p.nstages } else { 1 };
             let windows: Vec<(u64, u64)> = (0..n).map(|i| (1000 + 400 * i as u64, 1300 + 400 * i as u64)).collect();
@@ -882,7 +1156,7 @@ fn history(rng: &mut Rng, p: &Plan, tag: &str) -> Case {
     ops.push(at(500, 0));
     ops.push(mint(BUYERS[0], PUB_PRICE));
     if let Some(sp) = cur.clone() {
-        let pp = Plan { limits: if p.use_init && !is_merkle(p.kind) { [p.limits[0]; 3] } else { p.limits }, ..clone_plan(p) };
+        let pp = Plan { limits: if p.use_init && !is_merkle(p.kind) && !v.oe { [p.limits[0]; 3] } else { p.limits }, ..clone_plan(p) };
         let n = sp.stages.len();
         for i in 0..n {
             let st = &sp.stages[i];
@@ -949,33 +1223,67 @@ fn history(rng: &mut Rng, p: &Plan, tag: &str) -> Case {
             ops.push(COp::S(Op::UpdatePerAddressLimit { who: STRANGER.into(), limit: 3 }));
             let newpal = if p.noise { rng.range(1, 4) as u32 } else { (pal % 3) + 1 };
             ops.push(COp::S(Op::UpdatePerAddressLimit { who: CREATOR.into(), limit: newpal }));
-            if newpal <= 3 || v.flex {
+            if newpal <= 3 || v.flex || v.oe {
                 pal = newpal;
             }
             ops.push(at(START + 100, 7));
         }
     }
     // admin mints count for the admin and are not limited
+    let air = || if v.oe { native(OE_AIRDROP) } else { vec![] };
     for _ in 0..(p.pal + 1) {
-        ops.push(COp::S(Op::MintTo { who: CREATOR.into(), recipient: BUYERS[0].into(), funds: vec![] }));
+        ops.push(COp::S(Op::MintTo { who: CREATOR.into(), recipient: BUYERS[0].into(), funds: air() }));
     }
-    ops.push(COp::S(Op::MintFor { who: CREATOR.into(), token_id: p.num_tokens, recipient: BUYERS[2].into(), funds: vec![] }));
+    if !v.oe {
+        ops.push(COp::S(Op::MintFor { who: CREATOR.into(), token_id: p.num_tokens, recipient: BUYERS[2].into(), funds: vec![] }));
+    }
     ops.push(pm(CREATOR, PUB_PRICE));
-    ops.push(COp::S(Op::MintTo { who: STRANGER.into(), recipient: STRANGER.into(), funds: vec![] }));
-    // purge while tokens are left must fail and change nothing
+    ops.push(COp::S(Op::MintTo { who: STRANGER.into(), recipient: STRANGER.into(), funds: air() }));
+    // purge while the sale is on must fail and change nothing
     ops.push(COp::S(Op::Purge { who: STRANGER.into() }));
     ops.push(pm(BUYERS[0], PUB_PRICE));
-    if p.sell_out {
+    if p.sell_out && !p.unlimited {
         ops.push(COp::SellOut);
         ops.push(COp::S(Op::Purge { who: STRANGER.into() }));
         ops.push(pm(BUYERS[0], PUB_PRICE));
-        ops.push(COp::S(Op::MintTo { who: CREATOR.into(), recipient: BUYERS[1].into(), funds: vec![] }));
+        ops.push(COp::S(Op::MintTo { who: CREATOR.into(), recipient: BUYERS[1].into(), funds: air() }));
     }
-    Case { tag: tag.into(), variant: p.variant, num_tokens: p.num_tokens, pal: p.pal, price: PUB_PRICE, start_in: START, init_wl, ops }
+    if let Some(end) = p.end_in {
+        // open edition: the end time, one nanosecond around it; a purge only after it; nothing mints afterwards
+        if p.noise && rng.chance(1, 3) {
+            ops.push(COp::E(OeOp::UpdateEndTime { who: CREATOR.into(), secs: end, nanos: 0 }));
+        }
+        ops.push(at(end, -1));
+        ops.push(pm(BUYERS[2], PUB_PRICE));
+        ops.push(COp::S(Op::Purge { who: STRANGER.into() }));
+        ops.push(at(end, 0));
+        ops.push(pm(BUYERS[2], PUB_PRICE));
+        ops.push(COp::S(Op::Purge { who: STRANGER.into() }));
+        ops.push(at(end, 1));
+        ops.push(COp::S(Op::Purge { who: STRANGER.into() }));
+        ops.push(pm(BUYERS[2], PUB_PRICE));
+        ops.push(COp::S(Op::MintTo { who: CREATOR.into(), recipient: BUYERS[1].into(), funds: air() }));
+        ops.push(COp::E(OeOp::UpdateEndTime { who: CREATOR.into(), secs: end + 500, nanos: 0 }));
+        ops.push(pm(BUYERS[1], PUB_PRICE));
+    }
+    Case { tag: tag.into(), variant: p.variant, num_tokens: p.num_tokens, pal: p.pal, price: PUB_PRICE, start_in: START, init_wl, end_in: p.end_in, unlimited: p.unlimited, ops }
+}
+
+impl Plan {
+    /// open edition: either a token count or an end time (or both); sometimes no count at all
+    fn fix_oe(mut self, rng: &mut Rng) -> Plan {
+        if self.variant >= 6 {
+            if self.end_in.is_some() && rng.chance(1, 3) {
+                self.unlimited = true;
+            }
+            self.use_init = false;
+        }
+        self
+    }
 }
 
 fn clone_plan(p: &Plan) -> Plan {
-    Plan { variant: p.variant, kind: p.kind, nstages: p.nstages, limits: p.limits, caps: p.caps, counts: p.counts, pal: p.pal, num_tokens: p.num_tokens, use_init: p.use_init, swap: p.swap, contiguous: p.contiguous, noise: p.noise, second_wl: p.second_wl, sell_out: p.sell_out }
+    Plan { variant: p.variant, kind: p.kind, nstages: p.nstages, limits: p.limits, caps: p.caps, counts: p.counts, pal: p.pal, num_tokens: p.num_tokens, use_init: p.use_init, swap: p.swap, contiguous: p.contiguous, noise: p.noise, second_wl: p.second_wl, sell_out: p.sell_out, end_in: p.end_in, unlimited: p.unlimited }
 }
 
 fn random_plan(rng: &mut Rng, variant: usize, kind: &'static str) -> Plan {
@@ -1004,15 +1312,18 @@ fn random_plan(rng: &mut Rng, variant: usize, kind: &'static str) -> Plan {
         noise: true,
         second_wl: rng.chance(1, 5),
         sell_out: rng.chance(1, 3),
+        end_in: if variant >= 6 && rng.chance(3, 4) { Some(6000) } else { None },
+        unlimited: false,
     }
+    .fix_oe(rng)
 }
 
 /// the guard-boundary probes: every variant x every compatible kind, entitlement + 1 attempts by a
 /// member in every stage, stage caps reached by several buyers, per-address limit + 1 public mints
 fn probe_plans() -> Vec<(String, Plan)> {
     let mut v = vec![];
-    for variant in 0..6 {
-        let var = VARIANTS[variant];
+    for variant in 0..9 {
+        let var = fam(variant);
         let mut k = 0u32;
         for kind in ["none", "plain", "tiered", "flex", "tiered-flex", "merkle", "tiered-merkle"] {
             if kind != "none" && !compatible(&var, kind) {
@@ -1045,6 +1356,8 @@ fn probe_plans() -> Vec<(String, Plan)> {
                     noise: false,
                     second_wl: false,
                     sell_out: k == 1,
+                    end_in: if variant >= 6 && k != 1 { Some(6000) } else { None },
+                    unlimited: variant >= 6 && k == 3,
                 },
             ));
         }
@@ -1065,6 +1378,8 @@ fn corpus() -> Vec<Case> {
             pal: 3,
             price: PUB_PRICE,
             start_in: START,
+            end_in: None,
+            unlimited: false,
             init_wl: Some(InitWl { kind: "plain".into(), windows: vec![(1000, 2000)], limit: 1, cap: None, flex_count: 1, members: vec!["buyer1".into(), "buyer2".into()], price: WL_PRICE }),
             ops: vec![
                 at(1000, 0),
@@ -1096,6 +1411,8 @@ fn corpus() -> Vec<Case> {
             pal: 3,
             price: PUB_PRICE,
             start_in: START,
+            end_in: None,
+            unlimited: false,
             init_wl: None,
             ops: vec![
                 COp::MakeWl(sp.clone()),
@@ -1125,7 +1442,7 @@ fn corpus() -> Vec<Case> {
     }
     // --- tiered hand-over with the counters per stage, plain and Merkle minters ---
     for variant in 0..6usize {
-        let var = VARIANTS[variant];
+        let var = fam(variant);
         let kind = if var.flex { "tiered-flex" } else { "tiered" };
         let sp = WlSpec {
             kind: kind.into(),
@@ -1145,6 +1462,8 @@ fn corpus() -> Vec<Case> {
             pal: 2,
             price: PUB_PRICE,
             start_in: START,
+            end_in: None,
+            unlimited: false,
             init_wl: None,
             ops: vec![
                 COp::MakeWl(sp.clone()),
@@ -1188,7 +1507,7 @@ fn corpus() -> Vec<Case> {
 fn incompatible_cases() -> Vec<Case> {
     let mut v = vec![];
     for variant in 0..6usize {
-        let var = VARIANTS[variant];
+        let var = fam(variant);
         for kind in KINDS {
             if compatible(&var, kind) {
                 continue;
@@ -1212,7 +1531,7 @@ fn incompatible_cases() -> Vec<Case> {
             for who in ["buyer1", "buyer1", "buyer1"] {
                 ops.push(pm(who, PUB_PRICE));
             }
-            v.push(Case { tag: format!("incompatible:{}:{}", var.name, kind), variant, num_tokens: 12, pal: 2, price: PUB_PRICE, start_in: START, init_wl: None, ops: ops.clone() });
+            v.push(Case { tag: format!("incompatible:{}:{}", var.name, kind), variant, num_tokens: 12, pal: 2, price: PUB_PRICE, start_in: START, init_wl: None, end_in: None, unlimited: false, ops: ops.clone() });
             // the same whitelist kind given at creation (only the kinds the sale world's helper builds)
             if !is_merkle(kind) {
                 let windows = if tiered { vec![(1000, 1300), (1300, 1600)] } else { vec![(1000, 1600)] };
@@ -1223,6 +1542,8 @@ fn incompatible_cases() -> Vec<Case> {
                     pal: 2,
                     price: PUB_PRICE,
                     start_in: START,
+                    end_in: None,
+                    unlimited: false,
                     init_wl: Some(InitWl { kind: kind.into(), windows, limit: 1, cap: None, flex_count: 2, members: vec!["buyer1".into(), "buyer2".into()], price: WL_PRICE }),
                     ops: ops[2..].to_vec(),
                 });
@@ -1277,8 +1598,8 @@ fn all_cases(a: &Args) -> Vec<Case> {
     }
     v.extend(incompatible_cases());
     let per_pair = if a.thorough() { 12 } else { 2 };
-    for variant in 0..6 {
-        let var = VARIANTS[variant];
+    for variant in 0..9 {
+        let var = fam(variant);
         for kind in ["none", "plain", "tiered", "flex", "tiered-flex", "merkle", "tiered-merkle"] {
             if kind != "none" && !compatible(&var, kind) {
                 continue;
@@ -1306,6 +1627,7 @@ pub fn run(a: &Args) {
         all_cases(a)
     };
     let mut coq_cases = vec![];
+    let mut oe_cases = vec![];
     let mut nviol = 0;
     for (i, c) in cases.iter().enumerate() {
         let r = run_case(c);
@@ -1328,15 +1650,24 @@ pub fn run(a: &Args) {
             }
         }
         if rep.samples.len() < 3 && i % 23 == 5 {
-            rep.samples.push(serde_json::json!({"tag": c.tag, "variant": VARIANTS[c.variant].name, "num_tokens": c.num_tokens, "pal": c.pal,
+            rep.samples.push(serde_json::json!({"tag": c.tag, "variant": fam(c.variant).name, "num_tokens": c.num_tokens, "pal": c.pal,
                 "first_ops": c.ops.iter().take(8).map(|o| format!("{:?}", o)).collect::<Vec<_>>(), "steps": r.steps, "ok_steps": r.ok_steps, "ok_mints": r.ok_mints}));
         }
         if let Some(cq) = r.coq {
-            coq_cases.push(cq);
+            if c.variant >= 6 {
+                oe_cases.push(cq);
+            } else {
+                coq_cases.push(cq);
+            }
         }
     }
-    rep.rule = "histories of Mint (with stage/proof/allocation arguments on the Merkle variants), MintTo, MintFor, Purge, UpdatePerAddressLimit and SetWhitelist by three buyers, a stranger and the admin on every (vending minter variant x whitelist kind) pairing, whitelist-side limit/cap/member updates and the clock at every stage edge in between; evaluations = minter steps executed on the real contracts; distinct_nontrivial = Mint calls that completed (each one checked against the limit or entitlement in force)".into();
-    out.write_cases("C03", "From LP Require Import Num Pay Sg1 Bank MinterVending SaleCorr.", "scase", "sale_check", &coq_cases, 6, &mut rep);
+    rep.rule = "histories of Mint (with stage/proof/allocation arguments on the Merkle variants), MintTo, MintFor, Purge, UpdatePerAddressLimit and SetWhitelist by three buyers, a stranger and the admin on every (minter variant x whitelist kind) pairing of the six vending and three open-edition minters, whitelist-side limit/cap/member updates and the clock at every stage edge in between; evaluations = minter steps executed on the real contracts; distinct_nontrivial = Mint calls that completed (each one checked against the limit or entitlement in force)".into();
+    if !coq_cases.is_empty() {
+        out.write_cases("C03", "From LP Require Import Num Pay Sg1 Bank MinterVending SaleCorr.", "scase", "sale_check", &coq_cases, 4, &mut rep);
+    }
+    if !oe_cases.is_empty() {
+        out.write_cases("C03oe", "From LP Require Import Num Pay Sg1 Bank MinterVending MinterOpen SaleOeCorr.", "oecase", "sale_oe_check", &oe_cases, 2, &mut rep);
+    }
     out.finish(&rep);
     println!("C03 harness: {} cases, {} steps, {} monitor violations", cases.len(), rep.evaluations, nviol);
 }
